@@ -307,6 +307,11 @@ func runInBubble(s Script) (res vt.Result) {
 			continue
 		}
 		ex := do("POST", `{"jsonrpc":"2.0","id":"hs","method":"initialize","params":{"protocolVersion":"2025-06-18","capabilities":{"elicitation":{}},"clientInfo":{"name":"raw","version":"0"}}}`, "")
+		if ex != nil && ex.Status() == 0 {
+			// set-up: an answer that is flushed a little later (not at the same virtual instant) is still an answer
+			time.Sleep(time.Second)
+			synctest.Wait()
+		}
 		if ex == nil || ex.Status() != 200 {
 			res.Failf("harness: initialize of session %d failed", i)
 			return
@@ -401,6 +406,19 @@ func runInBubble(s Script) (res vt.Result) {
 	}
 
 	sreqOnRequest, sreqOnStandalone, cancelOnRequest := false, false, false
+	// resupdBy[tag][target]: the handler of tag was told to report the resource of session target as updated
+	// with its own request context.
+	resupdBy := map[string]map[string]bool{}
+	// responsesOn counts the JSON-RPC responses an exchange carries so far.
+	responsesOn := func(ex *memhttp.Exchange) int {
+		n := 0
+		for _, f := range messagesOf(ex) {
+			if f.isResp {
+				n++
+			}
+		}
+		return n
+	}
 	// Mirror of each handler's bookkeeping: how many cancellable nested requests it was told to issue, how
 	// many it was told to cancel, and which of those cancellations (by ordinal) were followed by quiescence
 	// while the handler was still running.
@@ -442,7 +460,9 @@ func runInBubble(s Script) (res vt.Result) {
 				}
 				if f.isResp {
 					resp++
-					if f.respID != fmt.Sprint(c.r) {
+					// accepted as well: a refused POST (status >= 400) answered with a null id - that is the
+					// exchange's own error answer (JSON-RPC allows null there), not somebody else's response
+					if f.respID != fmt.Sprint(c.r) && !(c.ex.Status() >= 400 && f.respID == "null") {
 						res.Failf("step %d: the exchange of %s received a response with id %s", step, c.tag, f.respID)
 					}
 					if f.tag != "" && f.tag != c.tag {
@@ -451,6 +471,13 @@ func runInBubble(s Script) (res vt.Result) {
 					continue
 				}
 				if f.kind == "resupd" {
+					// accepted: the notification for the handler's OWN session on the exchange of the very request
+					// whose handler reported the update with its request context (SSE mode) - that is the
+					// request's stream of clause 2; today the SDK happens to use the standalone stream
+					if own := f.tag == fmt.Sprintf("s%d", c.s) && resupdBy[c.tag][f.tag] && !s.JSON; own {
+						res.Class("resource_updated_on_issuing_request_stream")
+						continue
+					}
 					res.Failf("step %d: a resource-updated notification for session %s (issued by another request's handler) travelled on the request exchange of %s", step, f.tag, c.tag)
 					continue
 				}
@@ -469,6 +496,13 @@ func runInBubble(s Script) (res vt.Result) {
 			}
 			if resp > 1 {
 				res.Failf("step %d: the exchange of %s carries %d responses", step, c.tag, resp)
+			}
+			if c.finished && resp == 0 && c.ex.Status() < 400 && !c.cut {
+				// the property fixes no timing: a response that becomes visible a little later (delayed or
+				// coalesced flush) is not missing - look again after a virtual second
+				time.Sleep(time.Second)
+				synctest.Wait()
+				resp = responsesOn(c.ex)
 			}
 			if c.finished && resp != 1 && c.ex.Status() < 400 && !c.cut {
 				res.Failf("step %d: %s finished but its exchange carries %d responses (status %d)", step, c.tag, resp, c.ex.Status())
@@ -549,7 +583,9 @@ func runInBubble(s Script) (res vt.Result) {
 				}
 			}
 			if accepted > 1 {
-				res.Failf("step %d: two concurrent requests with the same id %d were both accepted on session %d", i, id, st.S)
+				// Not a violation by itself (the statement forbids misdelivery, not acceptance; cutreuse treats
+				// it the same way): both exchanges are judged by what travels on them in check() below.
+				res.Class("concurrent_duplicate_id_both_accepted")
 			}
 			desc.WriteString("D")
 			synctest.Wait()
@@ -631,6 +667,12 @@ func runInBubble(s Script) (res vt.Result) {
 		}
 		if kind == "resupd" && (c.finished || s.Stateless) {
 			continue
+		}
+		if kind == "resupd" {
+			if resupdBy[c.tag] == nil {
+				resupdBy[c.tag] = map[string]bool{}
+			}
+			resupdBy[c.tag][fmt.Sprintf("s%d", st.T)] = true
 		}
 		if kind == "sreq" {
 			sreqN++
